@@ -7,6 +7,7 @@ import CharsetProof.Model.Detect
 import CharsetProof.Model.Decode
 import CharsetProof.Model.Names
 import CharsetProof.Model.SortLarge
+import CharsetProof.Model.Cd
 import CharsetProof.Generated.TablesNow
 namespace Charset
 
@@ -79,11 +80,7 @@ def worldNow (o : Oracle) : World Name Name where
     match o.coh.find? (fun p => p.1 == (t, thr.key, langs)) with
     | some p => .ok p.2
     | none => needO (.coh t thr.key langs)
-  merge := fun xs =>
-    if xs.all (·.isEmpty) then .ok [] else
-    match o.merge.find? (fun p => p.1 == xs.map keyOfCoh) with
-    | some p => .ok p.2
-    | none => needO (.merge (xs.map keyOfCoh))
+  merge := fun xs => .ok (mergeModel xs)   -- `merge_coherence_ratios` is inside the model (Cd.lean)
   target := fun e =>
     match lookupName Gen.targetLanguages e with
     | some l => .ok l
